@@ -221,6 +221,18 @@ func genSplit(g *genCtx) {
 		}
 	}
 	if g.part == "limit" {
+		// packed GSM 7-bit texts of 159 / 160 / 161 septets that end in CR, '@' or a letter (160 septets are 140 octets: one part)
+		for _, n := range []int{152, 159, 160, 161} {
+			for _, last := range []rune{'\r', '@', 'a'} {
+				t := make([]int, n)
+				for i := range t {
+					t[i] = 'a' + i%5
+				}
+				t[n-1] = int(last)
+				emit(Case{"k": "split", "proto": "smpp", "req": 99, "ref": 5, "text": t})
+				emit(Case{"k": "batch", "proto": "SMPP", "cands": []int{99}, "text": t, "ref": 5})
+			}
+		}
 		// exactly 255 full parts is the most a message may have; one unit more is refused - at every entry point
 		for _, p := range plans {
 			if p.req == 99 || p.req == 9 || p.req == 15 || p.req == 3 {
